@@ -28,7 +28,8 @@ Alphabet == { L("A title", "title", "A title"),
               L("  trail  ", "exp", "trail  "),
               L("  # not a comment", "exp", "# not a comment"),
               L("  [3]", "code", "3"),
-              L("  [-1]", "exp", "[-1]"),                  \* only unsigned digits in brackets are an exit code
+              L("  [-1]", "exp", "[-1]"),
+              L("  [3] x", "exp", "[3] x"),                \* ... and only when nothing follows the closing bracket                  \* only unsigned digits in brackets are an exit code
               L(" x", "one", " x") }
 
 VARIABLES doc, pos, command, exps, code, title, titleFresh, inCommand, startIdx, tests, err
